@@ -316,12 +316,13 @@ def r_C19a_C01(root):
     vm = find(t, "TextXVisitor.visit_textx_model"); vps = [a_.arg for a_ in vm.args.args]
     OPT_PROP = {"memoization": ("C19", "C19.b"), "ignore_case": ("C20", "C20.b"), "autokwd": ("C21", "C21.b"), "skipws": ("C22", "C22.c"), "ws": ("C22", "C22.c")}
     need = ["ignore_case", "skipws", "ws", "autokwd", "memoization", "debug"]
-    for with_comment in (False, True):
+    VALS = [{o: ("opt", o) for o in need}, dict({o: False for o in need}, ws=" \t"), dict({o: True for o in need}, ws=""), dict({o: False for o in need}, ws=None, skipws=True)]
+    for with_comment, vals in ((False, VALS[0]), (True, VALS[0]), (False, VALS[1]), (False, VALS[2]), (False, VALS[3])):
         rec = []
         def _gmp(top_rule, comments_model=None, **kw): rec.append((top_rule, comments_model, kw)); return {".kind": "parser"}
         peg_c = {".kind": "comment-peg-rule"}
         mm_ = {".kind": "metamodel", ".file": ("opt", "file")}
-        for o in need: mm_["." + o] = ("opt", o)
+        for o in need: mm_["." + o] = vals[o]
         if with_comment: mm_["Comment"] = {"._tx_peg_rule": peg_c, ".kind": "cls"}
         root_rule = {".kind": "root-rule"}
         env = {"__functions__": {k_: v_ for k_, v_ in helper_functions(root, L, "TextXVisitor.visit_textx_model").items() if k_.startswith("_") and not k_.startswith("__")}, vps[0]: {".metamodel": mm_, ".kind": "visitor", ".grammar_parser": dict({".kind": "grammar-parser", ".file": ("grammar-parser", "file")}, **{"." + o_: ("grammar-parser", o_) for o_ in need}), ".debug": False}, vps[1]: {".kind": "node"}, vps[2]: [root_rule], "get_model_parser": _pe.PyFn(_gmp)}
@@ -334,10 +335,10 @@ def r_C19a_C01(root):
         if not with_comment:
             for o in need:
                 inst += 1
-                okk = kw_.get(o) == ("opt", o)
+                okk = o in kw_ and type(kw_[o]) is type(vals[o]) and kw_[o] == vals[o]
                 for pr, ru in [("C01", "C01.d")] + ([OPT_PROP[o]] if o in OPT_PROP else []):
-                    ob(pr, ru, L, "TextXVisitor.visit_textx_model", "option %s reaches get_model_parser as the meta-model's %s" % (o, o), okk)
-                    if not okk: out.append(Finding(pr, ru, L, "TextXVisitor.visit_textx_model", "get_model_parser(... %s ...)" % o, "parser option %r of the metamodel is not forwarded to the model parser (it arrives as %s)" % (o, "nothing" if o not in kw_ else ("the %s's %s" % ("meta-model" if kw_[o][0] == "opt" else kw_[o][0], kw_[o][1]) if isinstance(kw_[o], tuple) else repr(kw_[o])))))
+                    ob(pr, ru, L, "TextXVisitor.visit_textx_model", "option %s reaches get_model_parser as the meta-model's %s (%s)" % (o, o, "all options distinct markers" if vals is VALS[0] else "skipws=%r ws=%r, others %r" % (vals["skipws"], vals["ws"], vals["debug"])), okk)
+                    if not okk: out.append(Finding(pr, ru, L, "TextXVisitor.visit_textx_model", "get_model_parser(... %s ...)" % o, "parser option %r of the metamodel is not forwarded to the model parser%s (it arrives as %s)" % (o, "" if vals is VALS[0] else " when the meta-model has skipws=%r, ws=%r" % (vals["skipws"], vals["ws"]), "nothing" if o not in kw_ else ("the %s's %s" % ("meta-model" if kw_[o][0] == "opt" else kw_[o][0], kw_[o][1]) if isinstance(kw_[o], tuple) else repr(kw_[o])))))
         inst += 1
         okc_ = top_ is root_rule and (cm_ is peg_c if with_comment else cm_ is None) and isinstance(res_, dict) and res_.get(".metamodel") is mm_
         ob("C01", "C01.d", L, "TextXVisitor.visit_textx_model", "root rule, Comment rule (%s) and meta-model handed to the parser" % ("present" if with_comment else "absent"), okc_)
